@@ -89,14 +89,19 @@ structure K (a0 : Arm) (x : FCfg) : Prop where
 /-- `y` agrees with `x` on everything `K` looks at -/
 structure Fr (x y : FCfg) : Prop where
   s2 : Same2 x.l.c y.l.c
-  st : y.l.c.st = x.l.c.st
+  st : y.l.c.st = x.l.c.st ∨ terminal x.l.c.st.label = false      -- (a live state object may be re-armed / delivered to)
   fired : y.fired = x.fired
   arm : y.arm = x.arm
   trans : y.l.trans = x.l.trans
 
-theorem Fr.rfl' (x : FCfg) : Fr x x := ⟨Same2.rfl' _, rfl, rfl, rfl, rfl⟩
-theorem Fr.trans' {x y z : FCfg} (h1 : Fr x y) (h2 : Fr y z) : Fr x z :=
-  ⟨Same2.trans h1.s2 h2.s2, h2.st.trans h1.st, h2.fired.trans h1.fired, h2.arm.trans h1.arm, h2.trans.trans h1.trans⟩
+theorem Fr.rfl' (x : FCfg) : Fr x x := ⟨Same2.rfl' _, Or.inl rfl, rfl, rfl, rfl⟩
+theorem Fr.trans' {x y z : FCfg} (h1 : Fr x y) (h2 : Fr y z) : Fr x z := by
+  refine ⟨Same2.trans h1.s2 h2.s2, ?_, h2.fired.trans h1.fired, h2.arm.trans h1.arm, h2.trans.trans h1.trans⟩
+  rcases h1.st with e1 | l1
+  · rcases h2.st with e2 | l2
+    · exact Or.inl (e2.trans e1)
+    · exact Or.inr (by rw [← e1]; exact l2)
+  · exact Or.inr l1
 
 theorem ArmOk.of_none {a0 : Arm} {y : FCfg} (h : y.arm = none) : ArmOk a0 y :=
   ⟨fun b hb => (by rw [h] at hb; cases hb), fun _ => h⟩
@@ -106,12 +111,21 @@ theorem ArmOk.fr {a0 : Arm} {x y : FCfg} (h : ArmOk a0 x) (f : Fr x y) : ArmOk a
 
 theorem K.fr {a0 : Arm} {x y : FCfg} (h : K a0 x) (f : Fr x y) : K a0 y := by
   refine ⟨h.arm.fr f, by rw [f.trans]; exact h.tr, ?_⟩
+  have hexc : ∀ e, x.l.c.st = .excepted e → y.l.c.st = .excepted e := fun e hs => by
+    rcases f.st with h1 | h1
+    · rw [h1]; exact hs
+    · rw [hs] at h1; simp [SObj.label, terminal, allowed] at h1
   rcases h.g with ⟨hm, hf, e, he, hs⟩ | ⟨hi, he⟩
-  · exact Or.inl ⟨hm, by rw [f.fired]; exact hf, e, he, by rw [f.st]; exact hs⟩
-  · exact Or.inr ⟨hi.same2 f.s2, fun hm hf => by rw [f.st]; exact he hm (by rw [← f.fired]; exact hf)⟩
+  · exact Or.inl ⟨hm, by rw [f.fired]; exact hf, e, he, hexc e hs⟩
+  · exact Or.inr ⟨hi.same2 f.s2, fun hm hf => hexc _ (he hm (by rw [← f.fired]; exact hf))⟩
 
 /-- a pure update of the `Cfg` part that keeps what `Inv2` looks at and the state object -/
 theorem Fr.updC (x : FCfg) (f : Cfg → Cfg) (hs : Same2 x.l.c (f x.l.c)) (hst : (f x.l.c).st = x.l.c.st) : Fr x (x.updC f) :=
+  ⟨hs, Or.inl hst, rfl, rfl, rfl⟩
+
+/-- … the same for an update that may replace a live state object by another one of the same kind -/
+theorem Fr.updC' (x : FCfg) (f : Cfg → Cfg) (hs : Same2 x.l.c (f x.l.c))
+    (hst : (f x.l.c).st = x.l.c.st ∨ terminal x.l.c.st.label = false) : Fr x (x.updC f) :=
   ⟨hs, hst, rfl, rfl, rfl⟩
 
 /-! ### the hook wrapper -/
